@@ -32,6 +32,14 @@ CLAIMED = {
    "single-fault injection at every storage operation index (reads and length queries included) x generated writer and replica histories; error-surfacing + reopen before-or-after + usability oracle",
    "For each generated history a dry run counts the storage operations; the history is re-run once per operation index with that operation failing. All indices are enumerated, histories are bounded-exhaustive for short lengths and seeded-random beyond.",
    "the failing operation has no effect on the store; one fault per run"),
+ "C05": ("exploration",
+   "differential against an independent re-implementation of the Hypercore v10 Merkle/signature scheme over generated block sequences: all lengths 0..70 x size patterns x build modes + seeded-random sequences + replicas; persisted nodes, header/entry signatures and proof nodes compared",
+   "Every full tree node persisted by the crate (tree file overlaid with unflushed oplog entry nodes), the stored root hash and every stored or served signature is compared with / verified against a reference computed by independent code at every operation boundary.",
+   "shares only the BLAKE2b, Ed25519 (verify_strict) and CRC32 primitives with the crate; flat-tree arithmetic, hashing layout, signable and file parsing are independent"),
+ "C06": ("exploration",
+   "differential in both directions against an independent reader/writer of the JavaScript on-disk layout (generated histories dumped at every operation boundary; generated JS-valid storages opened by the crate) + the golden five-step interop scenario with certified SHA-256 hashes",
+   "Direction 1: an independent layout reader reconstructs the state from the raw files after every generated operation and must agree with the API. Golden: the crate alone must reproduce the file hashes certified against JavaScript. Direction 2: an independent writer synthesises JS-valid storage (slot rotations, partial/stale/torn tails) that the crate must open to the reference state.",
+   "the JavaScript implementation is not available offline; the layout rules of the property text and the certified hashes of tests/js_interop.rs are the reference; header shape limited to version 1 with manifest and key pair sections"),
 }
 
 PENDING_REASON = "check under construction in this round (designed in DESIGN.md §3, not yet registered)"
